@@ -1056,7 +1056,14 @@ def remove_duplicate_functions(source: str, preserve: Collection[str]) -> str:
     function_defs = collections.defaultdict(set)
 
     for node in core.filter_nodes(root.body, ast.FunctionDef):
-        function_defs[abstractions.hash_node(node, preserve)].add(node)
+        # Only names that belong to the function itself may differ between duplicates
+        own_names = (
+            {node.name}
+            | {arg.arg for arg in core.walk(node, ast.arg)}
+            | {name.id for name in core.walk(node, ast.Name(ctx=ast.Store))}
+        )
+        other_names = {name.id for name in core.walk(node, ast.Name)} - own_names
+        function_defs[abstractions.hash_node(node, other_names | set(preserve))].add(node)
 
     delete = set()
     renamings = {}
